@@ -59,7 +59,8 @@ fn csv_cell(s: &str) -> String {
 }
 
 fn gen_feature(rng: &mut Rng, slash: bool) -> String {
-    let pos = *rng.pick(&["N", "V", "P", "N", "\"q,1\"", "\"d\"\"q\""]);
+    // the last value begins with a double quote (`"x`): every writer must quote it
+    let pos = *rng.pick(&["N", "V", "P", "N", "\"q,1\"", "\"d\"\"q\"", "N", "V", "\"\"\"x\""]);
     let sub = *rng.pick(&["*", "a", "b", "a"]);
     let read = match rng.below(6) {
         0 => "*".to_string(),
@@ -268,7 +269,7 @@ pub fn gen_setup(rng: &mut Rng) -> Setup {
         } else {
             let mut s = gen_surface(rng, true);
             if rng.chance(1, 6) {
-                s.push(*rng.pick(&[',', '"']));
+                s.push(*rng.pick(&[',', '"', ',', '"', '\r', '\n']));
                 if rng.chance(1, 2) {
                     s.push('a');
                 }
@@ -296,7 +297,7 @@ pub fn gen_setup(rng: &mut Rng) -> Setup {
                 corpus.push_str(&format!("{}\t{}\n", s, gen_feature(rng, slash)));
             } else {
                 let (s, f) = &rows[rng.below(rows.len())];
-                if s.contains('\t') {
+                if s.contains('\t') || s.contains('\n') || s.contains('\r') {
                     continue;
                 }
                 corpus.push_str(&format!("{s}\t{f}\n"));
@@ -483,6 +484,10 @@ struct Compiled {
     close: String,
     closed: String,
     dims: String,
+    /// can the dual connector's pre-summed `i16` part saturate at all?  It sums, per id pair, one bigram.cost entry for
+    /// each template that is not in the 8 raw lanes: impossible with at most 8 templates, and impossible when
+    /// (templates - 8) * largest |entry| fits 16 bits (then C07's `dual_eq_raw_of_fits` applies: dual = raw)
+    sat: bool,
 }
 
 fn max_diff(a: &Dictionary, b: &Dictionary) -> Option<String> {
@@ -552,7 +557,32 @@ fn compile_flags_cd(chardef: &str, g: &Gen) -> Compiled {
         (Some(m), Some(r)) => max_diff(m, r).unwrap_or("panic".to_string()),
         _ => if dual_panicked { "buildpanic".to_string() } else { "na".to_string() },
     };
-    Compiled { compiles: mat.is_some(), userc, big: raw.is_some(), close, closed, dims }
+    let maxabs = String::from_utf8_lossy(&g.cost_raw)
+        .lines()
+        .filter_map(|l| l.rsplit('\t').next().and_then(|c| c.trim().parse::<i64>().ok()))
+        .map(|c| c.abs())
+        .max()
+        .unwrap_or(0);
+    let k = String::from_utf8_lossy(&g.left)
+        .lines()
+        .chain(String::from_utf8_lossy(&g.right).lines().collect::<Vec<_>>().into_iter())
+        .map(|l| {
+            // number of cells of the widest row (commas outside quotes + 1)
+            let row = l.split('\t').nth(1).unwrap_or("");
+            let (mut q, mut n) = (false, 1i64);
+            for ch in row.chars() {
+                if ch == '"' {
+                    q = !q;
+                } else if ch == ',' && !q {
+                    n += 1;
+                }
+            }
+            n
+        })
+        .max()
+        .unwrap_or(0);
+    let sat = k > 8 && (k - 8) * maxabs > 32767;
+    Compiled { compiles: mat.is_some(), userc, big: raw.is_some(), close, closed, dims, sat }
 }
 
 pub fn trainer_flags(s: &Setup, rt: bool, g: &Option<Result<Gen, ()>>) -> String {
@@ -646,8 +676,8 @@ pub fn flags_core(chardef: &str, k: usize, slash: bool, rt: bool, g: &Option<Res
         Some(Ok(g)) => {
             let c = compile_flags_cd(chardef, g);
             format!(
-                "RT={} COMPILES={} USERC={} BIG={} CLOSE={} CLOSED={} DIMS={} K={} ZERO={} SLASH={} EMPTYCLASS={} STAR={} CHARDEF={}",
-                rt as u8, c.compiles as u8, c.userc, c.big as u8, c.close, c.closed, c.dims, k,
+                "RT={} COMPILES={} USERC={} BIG={} CLOSE={} CLOSED={} SAT={} DIMS={} K={} ZERO={} SLASH={} EMPTYCLASS={} STAR={} CHARDEF={}",
+                rt as u8, c.compiles as u8, c.userc, c.big as u8, c.close, c.closed, c.sat as u8, c.dims, k,
                 all_costs_zero(g) as u8, slash as u8, empty_class(g) as u8, star_feature(g) as u8, hex(chardef.as_bytes())
             )
         }
@@ -989,7 +1019,7 @@ pub fn probes(out: &mut dyn Write) {
         match generate(&mut m) {
             Some(Ok(g)) => {
                 let c = compile_flags(&s, &g);
-                writeln!(out, "COMPILES={} BIG={} CLOSE={} CLOSED={} DIMS={}", c.compiles as u8, c.big as u8, c.close, c.closed, c.dims).unwrap();
+                writeln!(out, "COMPILES={} BIG={} CLOSE={} CLOSED={} SAT={} DIMS={}", c.compiles as u8, c.big as u8, c.close, c.closed, c.sat as u8, c.dims).unwrap();
                 writeln!(out, "-- lex.csv\n{}-- unk.def\n{}-- matrix.def\n{}-- bigram.left\n{}-- bigram.right\n{}-- bigram.cost\n{}",
                     String::from_utf8_lossy(&g.lex).escape_debug(), String::from_utf8_lossy(&g.unk).escape_debug(),
                     String::from_utf8_lossy(&g.matrix).escape_debug(), String::from_utf8_lossy(&g.left).escape_debug(),
